@@ -82,17 +82,33 @@ func (b *byRank[K]) Swap(i, j int) {
 	b.ranks[i], b.ranks[j] = b.ranks[j], b.ranks[i]
 }
 
-// Package-level channels of the code under test (a process-wide semaphore or free list) are
-// created when the package is initialised, outside any bubble: blocking on one is invisible to
-// the bubble's quiescence detection (the run would hang in real time) and its content would
-// leak from one run into the next. The overlay registers, per such variable, a function that
-// creates it again; the harness calls them inside the bubble at the start of every run.
-var globalResets []func()
+// Process-wide state of the code under test (package-level variables: a free list, a pool, a
+// semaphore channel, a cache) is initialised when the package is, outside any bubble: a channel
+// among it cannot be used inside a bubble created later (or blocks invisibly to the bubble's
+// quiescence detection), and whatever it holds would leak from one run into the next. The overlay
+// registers, per variable, a function that initialises it again (in the compiler's initialisation
+// order); the harness calls them inside the bubble at the start of every run.
+type globalReset struct {
+	order int
+	fn    func()
+}
 
-func RegisterReset(fn func()) { globalResets = append(globalResets, fn) }
+var (
+	globalResets       []globalReset
+	globalResetsSorted bool
+)
+
+func RegisterResetAt(order int, fn func()) {
+	globalResets = append(globalResets, globalReset{order, fn})
+	globalResetsSorted = false
+}
 
 func ResetGlobals() {
-	for _, fn := range globalResets {
-		fn()
+	if !globalResetsSorted {
+		sort.SliceStable(globalResets, func(i, j int) bool { return globalResets[i].order < globalResets[j].order })
+		globalResetsSorted = true
+	}
+	for _, r := range globalResets {
+		r.fn()
 	}
 }
